@@ -418,3 +418,19 @@ pub fn reentrancy(rep: &mut Report) {
     rep.bounds["reentrancy"] = json!({"outer_documents": outers.len(), "inner_documents": inners.len(), "cases": cases, "positions": "every pull of the outer source"});
     rep.absorb(t);
 }
+
+/// Free-running concurrency pass over the history alphabet (sampled schedules).
+pub fn concurrent(rep: &mut Report) {
+    let docs = documents();
+    let ops = ops_for(&docs, false, &[0, 1], false);
+    let mut t = Tally::new();
+    match explore::concurrent_agreement(8, 6, ops.len(), |i| run_op(&docs, &ops[i])) {
+        Ok(n) => {
+            t.evals += n;
+            t.outcome("concurrent calls agree with sequential ones (sampled schedules)");
+        }
+        Err(e) => t.violation("", format!("results differ when 8 threads call the parser at the same time: {e}"), json!({"kind": "concurrent"})),
+    }
+    rep.bounds["concurrent"] = json!({"threads": 8, "rounds": 6, "operations": ops.len(), "schedules": "free-running (sampled, not enumerated)"});
+    rep.absorb(t);
+}
